@@ -1,6 +1,6 @@
 #!/usr/bin/env python3
 """C06 -- a binary behaves identically on the RTL testbench (hextb) and on the simulator (hexsim).
-proof : Properties_C06.v -- C06_tb_equals_sim composes C03 (RTL refines the ISA), C13 (boot is canonical for every power-on
+proof : Properties_C06.v -- C06_tb_equals_sim_partial composes C03 (RTL refines the ISA), C13 (boot is canonical for every power-on
         state), the testbench model TbModel (tied to hextb.cpp by ./check C13) and C02 (hexsim's model refines the ISA).
 oracle: the REAL hextb executable (3 Verilator seeds, --max-cycles) against the REAL hexsim executable, both built from
         the working tree: stdout after hextb's load banner, exit status, console input consumed (through the two
@@ -43,7 +43,9 @@ def strip_banner(o):
 
 
 def main():
+    global run3
     ck = Check('C06')
+    run3 = tbcommon.retrying(ck)          # a timed-out run is re-run once before it counts
     ck.cov['trusted_base'] = ['Coq 8.16.1 kernel + VM', 'Isa.v as a reading of hexb.pdf (spec)',
                               'TbModel.v hand model of hextb.cpp (tied by ./check C13), SimModel.v hand model of hexsim.hpp (tied by ./check C02)',
                               'generated RTL (tools/vl2coq.py, validated by ./check C03) and RtlSem.v',
@@ -51,7 +53,7 @@ def main():
     ck.assumptions = ['judged: ISA run exits, is defined, stays below byte address 800000, READ does not overwrite its own SVC, '
                       'and no word outside the header-announced image is read before it is written (the two loaders differ beyond the image; RTL memory is random there)',
                       'KNOWN FINDING (known_findings.json, kind read-overwrites-own-svc), inside the literal quantifier and exhibited on every run by a hand-assembled binary: '
-                      'a READ whose result slot is the word holding its own SVC -- hextb retires the overwritten byte (hypothesis read clause of step_safe in C06_tb_equals_sim)',
+                      'a READ whose result slot is the word holding its own SVC -- hextb retires the overwritten byte (hypothesis read clause of step_safe in C06_tb_equals_sim_partial)',
                       'binaries whose first instruction is a system call are ordinary judged inputs since the repair of hextb.cpp (known_findings.json: fixed, kind first-instruction-svc)',
                       'file streams (>= 256) are not exercised (no simin/simout files in the scratch directory); console only',
                       'hextb is run with 3 Verilator seeds per case; power-on independence itself is C13']
@@ -96,11 +98,15 @@ def main():
             b = os.path.join(sd, 'p.bin') if os.path.exists(os.path.join(sd, 'p.bin')) else os.path.join(sd, 'a.out')
             if rc == 0 and os.path.exists(b):
                 progs.append(('tests/x/' + os.path.basename(src), b, std_inputs[:3] + [rand_input()]))
+            else:
+                ck.broken.append('xcmp does not compile the shipped %s (rc %d): %s' % (os.path.basename(src), rc, (o + e)[-200:]))
         for src in sorted(glob.glob(os.path.join(vlib.REPO, 'tests', 'asm', '*.S'))):
             b = os.path.join(d, os.path.basename(src) + '.bin')
             rc, o, e = run3([hexasm, src, '-o', b], cwd=d, timeout=120)
             if rc == 0 and os.path.exists(b):
                 progs.append(('tests/asm/' + os.path.basename(src), b, std_inputs[:2] + [rand_input()]))
+            else:
+                ck.broken.append('hexasm does not assemble the shipped %s (rc %d): %s' % (os.path.basename(src), rc, (o + e)[-200:]))
         for aname, asrc, ainps in tbcommon.asm_programs():
             sd = os.path.join(d, 'a%d' % nx)
             nx += 1
@@ -120,9 +126,9 @@ def main():
         try:
             import xgen
             shapes = xgen.directed()
-        except Exception as ex:          # generator not importable: fall back to the shipped programs only
+        except Exception as ex:          # generator not importable: the generated third of the programs would silently vanish
             shapes = []
-            ck.cov['generator_note'] = 'tools/xgen.py not usable: %s' % ex
+            ck.broken.append('tools/xgen.py (generated X programs) is not usable: %s' % ex)
         if not ck.thorough():
             rng.shuffle(shapes)
             shapes = shapes[:22]
@@ -242,6 +248,11 @@ def main():
                              {'program': 'shape/' + sname, 'binary_hex': simg.hex(), 'input': list(sinp), 'hexsim': [rs & 0xff, list(os_)],
                               'hextb': [[t[0], list(t[1])] for t in tbs], 'replay_cmd': './check C06 --replay <this file>'}, tags={'kind': kind})
     ck.cov['known_finding_exhibits'] = exhibits
+    if not ck.replay_arg:
+        floor_p, floor_j = (40, 70) if not ck.thorough() else (50, 90)
+        if len(progs) < floor_p or dist['judged'] < floor_j:
+            ck.broken.append('only %d programs compiled and %d (binary, input) pairs were judged (expected at least %d / %d): the check would pass without having looked'
+                             % (len(progs), dist['judged'], floor_p, floor_j))
     ck.cov['distinct_nontrivial'] = len(distinct)
     ck.cov['rule'] = ('(binary, input): shipped tests/x and tests/asm programs and generated X programs (tools/xgen.py directed shapes) compiled by the real xcmp/hexasm, '
                       'inputs of length 0-64 incl. EOF; judged iff the ISA monitor accepts the run and it exits; distinct by (program, input)')
